@@ -900,6 +900,36 @@ theorem pending_survives_only_if_present (P : Params) (cfg : List Key) (d : Disk
       · subst hs; rw [h0] at hst; cases hst
       · subst hs; rw [h0] at hst; cases hst
 
+/-! ## signature validity windows -/
+
+/-- **A signature outside its validity window never counts** — not an hour,
+not a second after expiry or before inception, however long the window is: a
+replayed, once-genuine DNSKEY RRset authenticates nothing. -/
+theorem signature_outside_its_window_never_counts (signers : List Key) (timed : List TimedSig) (k : Key)
+    (h : k ∈ effectiveSigners signers timed) :
+    k ∈ signers ∨ ∃ t ∈ timed, t.key = k ∧ t.notBefore ≤ 0 ∧ 0 ≤ t.notAfter := by
+  unfold effectiveSigners at h
+  rcases List.mem_append.mp h with h1 | h1
+  · exact Or.inl h1
+  · obtain ⟨t, ht, rfl⟩ := List.mem_map.mp h1
+    obtain ⟨h2, h3⟩ := List.mem_filter.mp ht
+    unfold TimedSig.valid at h3
+    simp only [Bool.and_eq_true, decide_eq_true_eq] at h3
+    exact Or.inr ⟨t, h2, rfl, h3.1, h3.2⟩
+
+/-- ... so an answer whose only signatures are expired or not yet valid is
+exactly an unsigned one. -/
+theorem expired_signatures_authenticate_nothing (cand : List Key) (f : Fetch) (timed : List TimedSig)
+    (h : ∀ t ∈ timed, t.notAfter < 0 ∨ 0 < t.notBefore) :
+    verifyFetched cand { f with signers := effectiveSigners f.signers timed } = verifyFetched cand f := by
+  have : (timed.filter (·.valid)) = [] := by
+    apply List.filter_eq_nil_iff.mpr
+    intro t ht
+    unfold TimedSig.valid
+    rcases h t ht with h1 | h1 <;> simp <;> omega
+  unfold effectiveSigners
+  simp [this]
+
 /-! ## the consumer side: what clients get -/
 
 /-- **serving_fails_closed.** With no trust anchor a validating lookup is never
@@ -1529,5 +1559,10 @@ example : (autoTA {} [kA, kB] {} [kA, kB]
 -- a rolled-in (not configured) anchor revoked in the first refresh after a restart, both writes failing (seeded C09-21)
 example : (autoTA {} [kB] { state := .ok [⟨kB, .valid, 0⟩, ⟨kA, .valid, 0⟩], tomb := .ok [] } (startupKeys [kB] { state := .ok [⟨kB, .valid, 0⟩, ⟨kA, .valid, 0⟩], tomb := .ok [] })
     (some revokeA) { tombWrite := true, stateWrite := true } 0).live = [] := by decide
+
+-- a genuine set whose only anchor signature expired a day ago (window 30 days): unauthenticated (seeded C09-22)
+example : verifyFetched [kA] { keys := [kA, kP], signers := effectiveSigners [] [⟨kA, -30 * 86400, -86400⟩] } = .none := by
+  decide
+example : verifyFetched [kA] { keys := [kA, kP], signers := effectiveSigners [] [⟨kA, -86400, 86400⟩] } = .full := by decide
 
 end SdnsVerif.Props.C09
